@@ -517,7 +517,8 @@ class Gen:
         k = rng.choice((0, 1, 2, 3)) if depth < self.max_depth else rng.choice((1, 2))
         self.feat("listlit:%d" % k)
         elems = [self.expr(STR, depth + 1) for _ in range(k)]
-        if self.profile == "constant":
+        if self.profile == "constant" or all(e.const or (e.k == "tr" and all(isinstance(c, N) and c.const for c in e.a)) for e in elems):
+            # (also in the dynamic profile, when every element happens to be a constant: the list may then be evaluated statically)
             # a constant string list is embedded as ONE <stringlist> that is translatable or not as a whole: qmluic rejects
             # a mix of bare and qsTr() elements by design ("cannot mix bare and translatable strings")
             def has_tr(n):
@@ -1593,7 +1594,10 @@ class Interp:
             o = self.ev(s.a[0])
             if o is None:
                 raise Undefined("null dereference")
-            self.state[o][s.v] = v
+            # the setter is called with v; like the model's (and Qt's) setters it leaves the property alone when the value compares
+            # equal to the current one -- observable for -0.0 written over +0.0 (and the other way round) only
+            if not (isinstance(v, float) and isinstance(self.state[o].get(s.v), float) and self.state[o][s.v] == v):
+                self.state[o][s.v] = v
             self.effects.append(("write", o, s.v, s.a[1].t, v))
             return None
         if k == "docall":
